@@ -370,7 +370,12 @@ def save_replay(run, name, obj):
 # --------------------------------------------------------------------------
 # trace validation: K chunk files, one single-worker TLC process per chunk, in parallel
 # --------------------------------------------------------------------------
-VERDICT_RE = re.compile(r'^<<"VERDICT", (\d+), "((?:[^"\\]|\\.)*)", "((?:[^"\\]|\\.)*)">>$', re.M)
+VERDICT_RE = re.compile(r'^"VERDICT\|(\d+)\|(.*)"$', re.M)
+BADCOUNT_RE = re.compile(r'^"BADCOUNT\|(\d+)"$', re.M)
+
+
+def _tla_unescape(s):
+    return re.sub(r"\\(.)", lambda m: {"n": "\n", "t": "\t"}.get(m.group(1), m.group(1)), s)
 
 
 def validate_trace(run, module, chunks, pid=None, env=None, par=None, heap_gb=3, timeout=1800, label=None):
@@ -408,11 +413,16 @@ def validate_trace(run, module, chunks, pid=None, env=None, par=None, heap_gb=3,
         with open(path) as f:
             lines = f.read().splitlines()
         nev += len(lines)
-        if res["distinct"] != len(lines) + 1:
+        if res["distinct"] != len(lines) + 2:
             raise Infra("trace %s not consumed completely: %d states for %d events" % (path, res["distinct"], len(lines)))
+        found = 0
         for m in VERDICT_RE.finditer(res["stdout"]):
             pos = int(m.group(1))
-            verdicts.append(dict(chunk=path, pos=pos, kind=m.group(2), detail=m.group(3), event=json.loads(lines[pos - 1])))
+            found += 1
+            verdicts.append(dict(chunk=path, pos=pos, kind=_tla_unescape(m.group(2)), detail="", event=json.loads(lines[pos - 1])))
+        bc = BADCOUNT_RE.search(res["stdout"])
+        if not bc or int(bc.group(1)) != found:
+            raise Infra("trace %s: TLC reported %s verdicts but %d were parsed" % (path, bc.group(1) if bc else "no count of", found))
     run.cov["traces_validated_against_impl"] = run.cov.get("traces_validated_against_impl", 0) + len(chunks)
     run.cov["trace_events_validated"] = run.cov.get("trace_events_validated", 0) + nev
     return verdicts
